@@ -1362,7 +1362,9 @@ def set_instantaneous_absorption(model: Model):
         if depot:
             to_comp, _ = cs.get_compartment_outflows(depot)[0]
             cb = CompartmentalSystemBuilder(cs)
-            cb.set_dose(to_comp, depot.doses[0])
+            to_comp = cb.set_dose(to_comp, depot.doses[0])
+            # NOTE: The bioavailability follows the dose to its new compartment
+            cb.set_bioavailability(to_comp, depot.bioavailability)
             ka = cs.get_flow(depot, cs.central_compartment)
             cb.remove_compartment(depot)
             symbols = ka.free_symbols
